@@ -10,6 +10,7 @@ Obligations per final world:
 """
 import os
 import sys
+import itertools
 import z3
 
 from pysym.engine import Engine
@@ -197,7 +198,7 @@ def sym_input(eng, L, prefix, sigma=None):
 def task_a(L, prefix="", idem=True, tmpl=None, sigma=None):
     eng = Engine()
     rec = Recorder(eng)
-    s = sym_input(eng, L, prefix, sigma) if tmpl is None else tmpl_input(eng, tmpl[0], tmpl[1], prefix)
+    s = sym_input(eng, L, prefix, sigma) if tmpl is None else tmpl_input(eng, tmpl, prefix)
     L = len(chars(s))
     cs = chars(s)
     pos_of = {c.var.idx: i for i, c in enumerate(cs)} if L else {}
@@ -271,15 +272,18 @@ def task_a(L, prefix="", idem=True, tmpl=None, sigma=None):
 SIGMA_T = "{}\\ x~,"
 
 
-def tmpl_input(eng, l1, l2, prefix):
-    """X1 + ' and ' + X2 : the separator word is literal, the surroundings are symbolic (deeper brace/escape nesting)"""
+def tmpl_input(eng, lens, prefix):
+    """X1 + ' and ' + X2 (+ ' and ' + X3): the separator words are literal, the surroundings are symbolic (deeper
+    brace/escape nesting; a name that *starts* with a brace or an escape right after a separator)"""
     cs = []
-    for i in range(l1):
-        cs.append(eng.sym_char(f"c{len(cs)}", prefix[i] if i < len(prefix) else SIGMA_T))
-    for ch in " and ":
-        cs.append(eng.sym_char(f"c{len(cs)}", ch))
-    for i in range(l2):
-        cs.append(eng.sym_char(f"c{len(cs)}", SIGMA_T))
+    first = True
+    for l in lens:
+        if not first:
+            for ch in " and ":
+                cs.append(eng.sym_char(f"c{len(cs)}", ch))
+        for i in range(l):
+            cs.append(eng.sym_char(f"c{len(cs)}", prefix[i] if first and i < len(prefix) else SIGMA_T))
+        first = False
     return mk(cs)
 
 
@@ -308,11 +312,11 @@ def task_recall(L, sigma):
     return rec.result(L=L, worlds=len(worlds))
 
 
-def task_c(L, prefix="", tmpl=None):
+def task_c(L, prefix="", tmpl=None, sigma=None):
     eng = Engine()
     eng.interpret_also(ref_split, balanced)
     rec = Recorder(eng)
-    s = sym_input(eng, L, prefix) if tmpl is None else tmpl_input(eng, tmpl[0], tmpl[1], prefix)
+    s = sym_input(eng, L, prefix, sigma) if tmpl is None else tmpl_input(eng, tmpl, prefix)
     worlds = eng.run(drv_c, [s])
     for W in worlds:
         if W.exc is not None:
@@ -355,7 +359,7 @@ def main():
     chk.assumptions = [
         f"input characters range over the alphabet {SIGMA!r} (13 symbols incl. space, newline, both cases of 'and' letters via a/A,n,d, backslash, braces, comma, tilde); other characters are outside the claim",
         f"lengths above the bound are outside the claim",
-        "whitespace = space, tab, CR, LF (the function's own definition); tab/CR are not in the alphabet",
+        "whitespace = space, tab, CR, LF (the function's own definition); tab/CR occur in the whitespace family only",
         "reference splitter (checks/c12.py:ref_split) is the executable reading of the statement: leftmost-first, separator = ws+ and ws+ of plain depth-0 unescaped characters with a non-empty name on both sides",
     ]
     chk.expected_vacuity = ["a-split-happened", "balanced-input-with-split"]
@@ -395,6 +399,19 @@ def main():
             else:
                 chk.add_task(f"tmpl-exact-{l1}+{l2}", task_c, L=0, tmpl=(l1, l2))
                 chk.add_task(f"tmpl-conserve-{l1}+{l2}", task_a, L=0, tmpl=(l1, l2), idem=(l1 + l2 <= 2 * LT - 2))
+    # two separators: X1 ' and ' X2 ' and ' X3 (a separator word inside a name that starts with a brace / an escape)
+    L3 = 2 if chk.tier == "quick" else 3
+    chk.bounds["two-separator family"] = f"X1 + ' and ' + X2 + ' and ' + X3, |Xi| <= {L3} over {SIGMA_T!r} (all three obligations)"
+    for l1, l2, l3 in itertools.product(range(L3, -1, -1), repeat=3):
+        chk.add_task(f"tmpl3-exact-{l1}+{l2}+{l3}", task_c, L=0, tmpl=(l1, l2, l3))
+        chk.add_task(f"tmpl3-conserve-{l1}+{l2}+{l3}", task_a, L=0, tmpl=(l1, l2, l3), idem=True)
+    # every whitespace character the function knows (tab and CR are not in the main alphabet)
+    SIGMA_W = " \t\r\nandx"
+    LW = 8 if chk.tier == "quick" else 10
+    chk.bounds["whitespace family"] = f"all strings of length 0..{LW} over {SIGMA_W!r} (all three obligations)"
+    for L in range(LW, -1, -1):
+        chk.add_task(f"ws-exact-L{L}", task_c, L=L, sigma=SIGMA_W)
+        chk.add_task(f"ws-conserve-L{L}", task_a, L=L, sigma=SIGMA_W, idem=(L <= LW - 1))
     chk.run()
 
 
